@@ -5,4 +5,11 @@ if ! "$PY" -c "import hypothesis" 2>/dev/null; then
     "$PY" -m pip install --no-index --find-links /opt/veriftools/wheels hypothesis || exit 1
 fi
 "$PY" -c "import hypothesis, numpy, pyparsing; print('hypothesis', hypothesis.__version__)" || exit 1
+# optional: atheris (coverage-guided tasks of the thorough tier, pbt/fuzz.py); kept outside /venv, in .deps (git-ignored).
+# Without it those tasks report themselves as inconclusive; nothing else depends on it.
+HERE=$(cd "$(dirname "$0")" && pwd)
+if [ ! -d "$HERE/.deps/atheris" ]; then
+    "$PY" -m pip install -q --no-index --find-links /opt/veriftools/wheels --target "$HERE/.deps" atheris >/dev/null 2>&1 \
+        || echo "atheris not installed (fuzz tasks will be inconclusive)"
+fi
 chmod +x ./check
